@@ -43,6 +43,8 @@ ATTACKS = [
     ("Slashing_attack_signWhenMissing.cfg", "missing record treated as nothing signed yet"),
     ("Slashing_attack_releaseBeforePersist.cfg", "signature handed out before the record is durable"),
     ("Slashing_attack_blockSlotLT.cfg", "block slot compared with < instead of <="),
+    ("Slashing_attack_saveErrSwallowed.cfg", "record write retried once, error of the last attempt swallowed "
+                                             "(needs a write fault that persists: failall)"),
     ("Slashing_attack_noSignLock.cfg", "check and update of two requests interleave (no per-account lock)"),
 ]
 # Weakenings of guards that the environment assumption (targets / slots not beyond the clock) makes redundant:
@@ -67,6 +69,7 @@ BREAKS = {   # which clauses of the property each weakening breaks (measured onc
     "Slashing_attack_signWhenMissing.cfg": ["NoDoubleVote", "NoSurround", "NoDoubleBlock", "RefuseWhenUnknown"],
     "Slashing_attack_releaseBeforePersist.cfg": ["NoDoubleVote", "NoSurround", "NoDoubleBlock"],
     "Slashing_attack_blockSlotLT.cfg": ["NoDoubleBlock"],
+    "Slashing_attack_saveErrSwallowed.cfg": ["NoDoubleVote", "NoSurround", "NoDoubleBlock"],
     "Slashing_fault_rempty.cfg": ["NoDoubleBlock", "RefuseWhenUnknown"],
 }
 
@@ -113,7 +116,7 @@ def _attack_runs(T):
         jobs.append((cfg.replace(".cfg", ""), "inert:" + desc, cfg.replace(".cfg", "_run.cfg"), src))
     # one counterexample per violated clause of the property, not only the first one TLC meets
     # (the clauses each weakening breaks; with per_invariant all four are tried and the others exhausted)
-    for cfg, desc in ATTACKS[:9] + DEVIATIONS:
+    for cfg, desc in [a for a in ATTACKS if a[0] != "Slashing_attack_noSignLock.cfg"] + DEVIATIONS:
         src = open(os.path.join(vlib.SPEC, cfg)).read()
         for inv in (CLAUSES if T["per_invariant"] else BREAKS[cfg]):
             if cfg.startswith("Slashing_fault") and inv not in BREAKS[cfg]:
@@ -180,8 +183,8 @@ def _danger(acts):
 
 def _select(behs, cap, seed):
     """At most `cap` cover behaviours: first those whose last request would be slashable against the behaviour's own
-    released signatures (up to 60% of cap, spread over the fault/rebuild kinds), the rest round robin over the kinds
-    of the last call."""
+    released signatures and those with a record write that fails under the remainder of a persistent write fault (up
+    to 60% of cap, spread over the fault/rebuild kinds), the rest round robin over the kinds of the last call."""
     import random
     if len(behs) <= cap:
         return behs
@@ -200,9 +203,17 @@ def _select(behs, cap, seed):
                 elif seen and x.get("name") in ("AddShare", "Reactivate", "RemoveShare") and x.get("res") in ("ok", "crash"):
                     rebuilt = True
         dg = _danger(acts)
+        # the last signing request answered under the remainder of a persistent write fault (anywhere in the behaviour)
+        carried = None
+        for x in acts:
+            if x.get("name") in ("SignAtt", "SignBlk") and (x.get("fault") or {}).get("k") == "none" and \
+                    (x.get("eff") or {}).get("k") == "failall":
+                carried = (x.get("name"), x.get("res"), bool(x.get("hit")))
+        # eff = the plan the call ran under: its own, or the remainder of a persistent write fault (fault = none then)
         key = (a.get("name"), a.get("res"), (a.get("fault") or {}).get("k"), (a.get("fault") or {}).get("at"), rebuilt,
-               a.get("d") if rebuilt else None)
-        if dg:
+               a.get("d") if rebuilt else None, (a.get("eff") or {}).get("k"), (a.get("eff") or {}).get("n"), carried)
+        if dg or (carried and carried[2]):
+            # ... or a request whose record write was attempted and failed for the SECOND call in a row
             hot.setdefault((dg,) + key, []).append(b)
         else:
             groups.setdefault(key, []).append(b)
@@ -236,6 +247,7 @@ def _apalache(wd):
         ("step", ["--init=IndInit", "--inv=IndInv", "--length=1"], "NoError"),
         ("step_weakened_must_fail", ["--init=IndInit", "--next=NextW", "--inv=IndInv", "--length=1"], "Error"),
         ("step_bumpKeepsSource_must_fail", ["--init=IndInit", "--next=NextB", "--inv=IndInv", "--length=1"], "Error"),
+        ("step_saveErrSwallowed_must_fail", ["--init=IndInit", "--next=NextS", "--inv=IndInv", "--length=1"], "Error"),
     ]
 
     def one(ob):
@@ -256,7 +268,7 @@ def _apalache(wd):
         return {"obligation": name, "cmd": "apalache-mc check " + " ".join(args) + " SlashInd.tla", "outcome": got,
                 "expected": want, "wall_s": round(time.time() - t0, 1)}
 
-    with concurrent.futures.ThreadPoolExecutor(max_workers=4) as ex:
+    with concurrent.futures.ThreadPoolExecutor(max_workers=5) as ex:
         obs = list(ex.map(one, obligations))
     ok = all(o["outcome"] == o["expected"] for o in obs)
     stalled = any(o["outcome"] in ("timeout", "unknown") for o in obs)
@@ -354,6 +366,12 @@ def run(tier, seed):
         if kind.startswith("inert"):
             log("[C04] NOTE: weakening %s is no longer inert: %s" % (ident, ra.violation))
         attack_behs.append(vlib.trace_behaviour(ra.trace, "attack-" + ident, kind))
+        if "saveErrSwallowed" in ident and len(ra.trace) > 2:
+            # the same schedule with the node restarted on the same database before the last request (Restart is
+            # enabled in every state and changes nothing here: no call is in flight and the wallet is persisted)
+            tr2 = list(ra.trace[:-1]) + [{"act": {"name": "Restart"}}, ra.trace[-1]]
+            attack_behs.append(vlib.trace_behaviour(tr2, "attack-" + ident + "-restart",
+                                                    kind + " / restart before the last request"))
     cov["attack_traces"] = len(attack_behs)
 
     inp = os.path.join(wd, "behaviours.ndjson")
@@ -445,6 +463,10 @@ def run(tier, seed):
         "signing time; add / remove / reactivate do not overlap signing for the same share (event handler order)",
         "a crash is modelled as a panic out of the database wrapper at a write; badger's own atomicity of a single "
         "Set / Delete is trusted",
+        "store faults: one fault plan per call (crash before / after a write, one failing write, read error, not "
+        "found) or a PERSISTENT write fault - every Set / Delete of one protection record (highest attestation or "
+        "highest proposal) fails for 1..MaxPersist consecutive public calls, over restarts too; one record at a "
+        "time, and no second plan while it lasts",
         "the far-future guard of eth2-key-manager reads the wall clock against the real prater genesis and never fires",
         "the Apalache obligations are about SlashInd.tla, an over-approximation of Slashing.tla argued in its header",
     ], len(verdict.violations))
